@@ -11,7 +11,7 @@ RULE = ("2-5 modules at nesting depth 1-3 that define the same short names (incl
         "emitted and with the size it laid the field out with. non-trivial = accepted and at least one name had two or more "
         "candidate definitions in scope; distinct by case text")
 ASSUMPTIONS = ["module paths are never themselves type paths (known finding C11/module-path-is-type-path has its own witness case)"]
-NAMES = ['A', 'B', 'C', 'u32', 'bool']
+NAMES = ['A', 'B', 'C', 'u32', 'bool', 'void']
 BUILTIN = {'u32': 4, 'bool': 1, 'u8': 1}
 
 def generate(rng, tier):
@@ -65,6 +65,17 @@ def gen_case(rng, cid):
             if r < 0.25: t = ty_cptr(t)
             elif r < 0.35: t = ty_arr(t, 2)
             flds.append(field(True, 'f%d' % k, t))
+    # the observed type's OWN name defined elsewhere too and imported by name: inside `User`, `User` then denotes the import
+    if others and rng.random() < 0.25:
+        q = rng.choice(others)
+        for (pp, dl, _) in mods:
+            if pp == q and not any(d_[2] == 'User' for d_ in dl):
+                size[0] += 1
+                dl.append(type_def(True, 'User', [a_ident('packed')], [field(True, 'x', ty_arr(ty_id('u8'), size[0]))]))
+                uses.append(path(*(q + ['User'])))
+                flds.append(field(True, 'fself', ty_cptr(ty_id('User'))))
+                if rng.random() < 0.5:
+                    flds.append(field(True, 'fval', ty_id('User')))
     ds.append(type_def(True, 'User', [a_ident('packed')], flds))
     mods[obs][2] = uses
     # the other lookup sites (all behind pointers, so that the layout of `User` is not involved): parameters and return types of
@@ -167,6 +178,8 @@ def judge(c, impl, model):
         if want == 'void': want = '::std::ffi::c_void'
         k = tag(t)
         wty = want if k == 'id' else ('*const ' + want if k == 'cptr' else '[%s;2]' % want)
+        if k == 'arr' and want == '::std::ffi::c_void':
+            continue      # an array of the zero-sized built-in `void` is a zero-sized array region, which pyxis does not emit
         if flds.get(fname) != wty:
             own_is_type = len(own) >= 1 and own[-1] in defs.get(tuple(own[:-1]), {})
             fs.append(Finding('O', 'C11/wrong-binding' + ('/module-path-is-type-path' if own_is_type else ''), cid, 'User.%s: `%s` should denote %s, emitted %s' % (fname, base_name(t), want, flds.get(fname))))
